@@ -12,7 +12,8 @@ COQ_FALLBACK = ("Model.C08", "spec_ok")
 COQ_IMPORTS = ""
 SHARD = 150
 RULE = ("every mask of every shape with H*W <= 4 (quick) / <= 6 (thorough) x {masked-native with use_mask_in_fit, slim without} x "
-        "{no sky, sky offset} x {no inversion, all objects regularized, partially regularized, none regularized}, values "
+        "{no sky, sky offset} x {no inversion, all objects regularized, partially regularized, none regularized} (H*W in {5, 6}: "
+        "no inversion / partially regularized only), values "
         "random dyadic (noise in {1/4..8} on fitted pixels, garbage incl. 1e30 / 0 / negative noise in masked pixels), run "
         "through FitImaging / FitDataset subclasses on aa.Imaging datasets and a real AbstractInversion subclass; plus random "
         "larger shapes, every linear-object structure with <= 3 objects of 1-2 parameters (inversion terms), direct calls of "
@@ -21,8 +22,9 @@ RULE = ("every mask of every shape with H*W <= 4 (quick) / <= 6 (thorough) x {ma
 EXHAUSTIVE = {
     "quick": "all masks of all shapes with H*W <= 4 x 2 modes x 2 sky settings x 4 inversion kinds; all object structures "
              "(params in {1,2}, regularized or not) of length <= 3",
-    "thorough": "all masks of all shapes with H*W <= 6 x 2 modes x 2 sky settings x 4 inversion kinds; all object structures "
-                "(params in {1,2}, regularized or not) of length <= 4",
+    "thorough": "all masks of all shapes with H*W <= 6 x 2 modes x 2 sky settings x inversion kinds (4 kinds for H*W <= 4; "
+                "none / partially regularized for H*W in {5, 6}); all object structures (params in {1,2}, regularized or not) "
+                "of length <= 4",
 }
 TRUSTED = ["hand-written Gallina model coq/Model/C08.v of fit_util.py / fit_dataset.py / fit_imaging.py / the evidence terms of "
            "inversion/abstract.py (no translator), tied to /repo by this correspondence run only",
@@ -147,12 +149,12 @@ def gen_inputs(tier, rng):
         for bits in itertools.product([0, 1], repeat=h * w):
             for mode in ("native", "slim"):
                 for sky in (0.0, None):
-                    for invkind in ("noinv", "all", "partial", "none"):
+                    for invkind in (("noinv", "all", "partial", "none") if h * w <= 4 else ("noinv", "partial")):
                         i += 1
                         via = vias[i % 3] if sky == 0.0 else "imaging"
                         s = 0.0 if sky == 0.0 else rng.choice(SKIES)
                         yield gen_fit(rng, h, w, bits, mode, s, invkind, via)
-    for _ in range(4000 if big else 500):
+    for _ in range(2000 if big else 300):
         h, w = rng.randint(2, 5), rng.randint(2, 5)
         p = rng.choice([0.0, 0.2, 0.5, 0.8])
         mode = rng.choice(["native", "native", "slim", "slim", "native_nomask"])
@@ -163,9 +165,9 @@ def gen_inputs(tier, rng):
     for st in structures(4 if big else 3):
         for _ in range(3 if big else 2):
             yield {"op": "inv", "inv": gen_inv(rng, None, st), "junk": bool(rng.randint(0, 1))}
-    for _ in range(3000 if big else 400):
+    for _ in range(1500 if big else 250):
         yield {"op": "inv", "inv": gen_inv(rng, rng.choice(["all", "partial", "partial", "none"])), "junk": bool(rng.randint(0, 1))}
-    for _ in range(3000 if big else 400):
+    for _ in range(1500 if big else 250):
         two_d = rng.random() < 0.5
         h, w = (rng.randint(1, 4), rng.randint(1, 4)) if two_d else (1, rng.randint(1, 9))
         n = h * w
@@ -174,7 +176,7 @@ def gen_inputs(tier, rng):
                "data": [(0.0 if rng.random() < 0.1 else rnd_val(rng)) for _ in range(n)],
                "noise": [rng.choice(NOISE) for _ in range(n)], "model": [rnd_val(rng) for _ in range(n)],
                "wrap": bool(two_d and rng.random() < 0.4)}
-    for _ in range(1000 if big else 200):
+    for _ in range(300 if big else 100):
         yield {"op": "compose", "a": [rng.randint(-4000, 4000) / 16.0 for _ in range(5)]}
 
 # ----------------------------------------------------------------------------- implementation side
